@@ -34,7 +34,7 @@ impl Pipe {
     let mut fds = [0 as libc::c_int; 2];
     let rc = unsafe { libc::pipe2(fds.as_mut_ptr(), libc::O_NONBLOCK | libc::O_CLOEXEC) };
     if rc != 0 { return None; }
-    unsafe { libc::fcntl(fds[1], libc::F_SETPIPE_SZ, 1 << 20); }
+    if !cfg!(miri) { unsafe { libc::fcntl(fds[1], libc::F_SETPIPE_SZ, 1 << 20); } }
     Some(Pipe { r: fds[0], w: fds[1] })
   }
   fn drain(&self) -> Vec<u8> {
@@ -208,7 +208,9 @@ pub fn run(opts: &Opts) -> i32 {
 
   // (1) exhaustive: every code, press and release, alone and paired with a neighbour
   let mut idx = 0u64;
+  let aux = opts.num("aux", 0) == 1;
   for (i, k) in keys.iter().enumerate() {
+    if aux && i % 120 != 0 { continue; }
     for press in [true, false] {
       idx += 1;
       if idx % opts.nshards != opts.shard { continue; }
@@ -226,6 +228,7 @@ pub fn run(opts: &Opts) -> i32 {
   // (2b) every batch length from 0 to 2100 once (buffer-size boundaries of any chunked writer fall in here)
   for len in 0..=2100usize {
     if (len as u64) % opts.nshards != opts.shard { continue; }
+    if aux && len % 341 != 0 && len > 12 { continue; }
     let evs: Vec<Event> = (0..len).map(|_| { let k = *rng.pick(&keys); if rng.chance(1, 2) { Pressed(k) } else { Released(k) } }).collect();
     out.nontrivial(hash64(&(len, 77u8)));
     run_case(&evs, &mut rng, &mut out, "every_length_0_to_2100", &keys, &unknown);
